@@ -36,7 +36,13 @@ structure TP where
 inductive Func | str | lang | datatype | isIri | isBlank | isLiteral
   deriving Repr, DecidableEq, Inhabited
 
-/-- the modelled core of `spargebra::algebra::Expression` -/
+inductive CmpOp | gt | le | ge
+  deriving Repr, DecidableEq, Inhabited
+
+inductive AOp | add | sub | mul
+  deriving Repr, DecidableEq, Inhabited
+
+/-- the modelled core of `spargebra::algebra::Expression` (EXISTS: see `GP.filterExists`) -/
 inductive Expr where
   | const (t : Term)              -- NamedNode / Literal
   | var (x : Str)
@@ -48,6 +54,18 @@ inductive Expr where
   | not (a : Expr)
   | bound (x : Str)
   | call (f : Func) (a : Expr)
+  | cmp (op : CmpOp) (a b : Expr)         -- Greater / LessOrEqual / GreaterOrEqual
+  | arith (op : AOp) (a b : Expr)         -- Add / Subtract / Multiply (Divide yields decimals: not modelled)
+  | neg (a : Expr)                        -- UnaryMinus
+  | pos (a : Expr)                        -- UnaryPlus
+  | ite (c t e : Expr)                    -- IF
+  /-- `In(a, e :: es)`, the list spelled as a chain: `rest` is the `inl` for `es`, or `const false`
+  for the empty list -/
+  | inl (a e rest : Expr)
+  /-- `Coalesce(a :: es)` as a chain ending in `err` -/
+  | coalesce (a rest : Expr)
+  /-- no counterpart in spargebra: the expression that always raises an error (`Coalesce([])`) -/
+  | err
   deriving Repr, DecidableEq, Inhabited
 
 /-- `NamedNodePattern` of a GRAPH clause -/
@@ -61,6 +79,9 @@ inductive GP where
   | join (l r : GP)
   | leftJoin (l r : GP)
   | filter (e : Expr) (inner : GP)
+  /-- `Filter { expr: Exists(pat), inner }` (`neg = false`) or `Filter { expr: Not(Exists(pat)), inner }`
+  (`neg = true`): FILTER [NOT] EXISTS; other uses of `Expression::Exists` are outside the model -/
+  | filterExists (neg : Bool) (pat : GP) (inner : GP)
   | union (l r : GP)
   | graph (name : GName) (inner : GP)
   | extend (inner : GP) (x : Str) (e : Expr)
@@ -97,7 +118,7 @@ inductive GPTag
 
 def GP.tag : GP → GPTag
   | .bgp _ => .bgp | .path => .path | .join _ _ => .join | .leftJoin _ _ => .leftJoin
-  | .filter _ _ => .filter | .union _ _ => .union | .graph _ _ => .graph
+  | .filter _ _ => .filter | .filterExists _ _ _ => .filter | .union _ _ => .union | .graph _ _ => .graph
   | .extend _ _ _ => .extend | .minus _ _ => .minus | .values => .values
   | .orderBy _ => .orderBy | .project _ _ => .project | .distinct _ => .distinct
   | .reduced _ => .reduced | .slice _ _ _ => .slice | .group _ => .group | .service _ => .service
@@ -297,6 +318,39 @@ def opLt (a b : Term) : Option Bool :=
   | none, _ | _, none => if isLiteral a && isLiteral b && termEq a b then some false else none
   | _, _ => none
 
+/-- `A > B`, `A <= B`, `A >= B` (§17.3), same operand types and the same two adopted extensions as `<` -/
+def opOrd (a b : Term) : Option Ordering :=
+  match valOf a, valOf b with
+  | some (.int x), some (.int y) => some (compare x y)
+  | some (.str x), some (.str y) => some (strCmp x y)
+  | some (.bool x), some (.bool y) => some (compare x.toNat y.toNat)
+  | some (.lstr x t), some (.lstr y u) => some ((tagCmp t u).then (strCmp x y))
+  | none, _ | _, none => if isLiteral a && isLiteral b && termEq a b then some .eq else none
+  | _, _ => none
+
+def CmpOp.test : CmpOp → Ordering → Bool
+  | .gt, o => o == .gt
+  | .le, o => o != .gt
+  | .ge, o => o != .lt
+
+def intTerm (i : Int) : Term := .lit (toString i).toList xsdInteger
+
+/-- op:numeric-add / -subtract / -multiply on xsd:integer (§17.3); other operands: type error -/
+def opArith (op : AOp) (a b : Term) : Option Term :=
+  match valOf a, valOf b with
+  | some (.int x), some (.int y) => some (intTerm (match op with | .add => x + y | .sub => x - y | .mul => x * y))
+  | _, _ => none
+
+def opNeg (a : Term) : Option Term :=
+  match valOf a with
+  | some (.int x) => some (intTerm (-x))
+  | _ => none
+
+def opPos (a : Term) : Option Term :=
+  match valOf a with
+  | some (.int x) => some (intTerm x)
+  | _ => none
+
 /-- §17.4 functional forms / functions of the core, on terms -/
 def callFunc : Func → Term → Option Term
   | .str, .iri s => some (.lit s xsdString)
@@ -337,6 +391,21 @@ def evalExpr (μ : Mu) : Expr → Option Term
   | .not a => do let x ← evalExpr μ a; let v ← ebv x; pure (boolTerm (!v))
   | .bound x => some (boolTerm (μ.get (.var x)).isSome)
   | .call f a => do let x ← evalExpr μ a; callFunc f x
+  | .cmp op a b => do let x ← evalExpr μ a; let y ← evalExpr μ b; (opOrd x y).map (fun o => boolTerm (op.test o))
+  | .arith op a b => do let x ← evalExpr μ a; let y ← evalExpr μ b; opArith op x y
+  | .neg a => do let x ← evalExpr μ a; opNeg x
+  | .pos a => do let x ← evalExpr μ a; opPos x
+  -- §17.4.1.2 IF: an error in the condition *or in its effective boolean value* is an error of the IF
+  | .ite c t e => do
+    let x ← evalExpr μ c
+    let v ← ebv x
+    if v then evalExpr μ t else evalExpr μ e
+  -- §17.4.1.9 IN: `(a = e₁) || (a = e₂) || …` with the error semantics of `||`
+  | .inl a e rest =>
+    (or3 (do let x ← evalExpr μ a; let y ← evalExpr μ e; opEq x y) ((evalExpr μ rest).bind ebv)).map boolTerm
+  -- §17.4.1.3 COALESCE: the first argument that evaluates without error
+  | .coalesce a rest => (evalExpr μ a).or (evalExpr μ rest)
+  | .err => none
 
 /-- the FILTER condition: EBV is true (an error removes the solution) -/
 def holds (e : Expr) (μ : Mu) : Bool := ((evalExpr μ e).bind ebv) == some true
@@ -359,6 +428,7 @@ def TP.vars (tp : TP) : List Str := termVars tp.s ++ termVars tp.p ++ termVars t
 def inScope : GP → List Str
   | .bgp ps => ps.flatMap TP.vars
   | .filter _ p => inScope p
+  | .filterExists _ _ p => inScope p
   | .union l r => inScope l ++ inScope r
   | .graph (.var x) p => x :: inScope p
   | .graph (.iri _) p => inScope p
@@ -384,6 +454,33 @@ def sliceList {α : Type} (l : List α) (start : Nat) (len : Option Nat) : List 
   | some n => (l.drop start).take n
   | none => l.drop start
 
+/-- `eval(D(G), substitute(P, μ₀))` extended by μ₀, for the group patterns that may stand inside
+EXISTS here (BGP, UNION, FILTER, GRAPH, nested FILTER [NOT] EXISTS): substituting the variables of
+μ₀ and then matching gives, up to μ₀ itself, the solutions that *extend* μ₀ (§18.6 `exists`). -/
+def evalUnder (D : List Quad) : GP → Graph → Mu → Except Err (List Mu)
+  | .bgp ps, G, μ₀ => .ok ((instancesFrom μ₀ G ps).map dropBn)
+  | .union l r, G, μ₀ => do
+    let a ← evalUnder D l G μ₀
+    let b ← evalUnder D r G μ₀
+    pure (a ++ b)
+  | .filter e p, G, μ₀ => do
+    let Ω ← evalUnder D p G μ₀
+    pure (Ω.filter (holds e))
+  | .filterExists neg pat p, G, μ₀ => do
+    let Ω ← evalUnder D p G μ₀
+    let keep ← Ω.mapM (fun μ => (evalUnder D pat G μ).map (fun r => (!r.isEmpty) != neg))
+    pure ((Ω.zip keep).filterMap (fun x => if x.2 then some x.1 else none))
+  | .graph (.iri n) p, _, μ₀ => evalUnder D p (namedGraph D (.iri n)) μ₀
+  | .graph (.var x) p, _, μ₀ =>
+    match μ₀.get (.var x) with
+    | some n => evalUnder D p (namedGraph D n) μ₀
+    | none =>
+      (graphNames D).foldr (fun n acc => do
+        let Ω ← evalUnder D p (namedGraph D n) μ₀
+        let rest ← acc
+        pure (join [[(Key.var x, n)]] Ω ++ rest)) (.ok [])
+  | _, _, _ => .error .unsupported
+
 /-- `eval(D(G), P)`; `G` is the active graph -/
 def eval (D : List Quad) : GP → Graph → Except Err (List Mu)
   | .bgp ps, G => .ok (specBgp G ps)
@@ -394,6 +491,11 @@ def eval (D : List Quad) : GP → Graph → Except Err (List Mu)
   | .filter e p, G => do
     let Ω ← eval D p G
     pure (Ω.filter (holds e))
+  -- §17.4.1.4 / §18.6: keep μ iff eval(D(G), substitute(pat, μ)) has a solution (or has none, NOT EXISTS)
+  | .filterExists neg pat p, G => do
+    let Ω ← eval D p G
+    let keep ← Ω.mapM (fun μ => (evalUnder D pat G μ).map (fun r => (!r.isEmpty) != neg))
+    pure ((Ω.zip keep).filterMap (fun x => if x.2 then some x.1 else none))
   | .graph (.iri n) p, _ => eval D p (namedGraph D (.iri n))
   | .graph (.var x) p, _ =>
     (graphNames D).foldr (fun n acc => do
@@ -418,10 +520,21 @@ def eval (D : List Quad) : GP → Graph → Except Err (List Mu)
     pure (sliceList Ω start len)
   | _, _ => .error .unsupported
 
+/-- what may stand inside EXISTS for the oracle: the substitution semantics is only written down
+(`evalUnder`) for these -/
+def existsFragment : GP → Bool
+  | .bgp _ => true
+  | .filter _ p => existsFragment p
+  | .filterExists _ pat p => existsFragment pat && existsFragment p
+  | .union l r => existsFragment l && existsFragment r
+  | .graph _ p => existsFragment p
+  | _ => false
+
 /-- the fragment of the property: everything else must be refused -/
 def inFragment : GP → Bool
   | .bgp _ => true
   | .filter _ p => inFragment p
+  | .filterExists _ pat p => existsFragment pat && inFragment p
   | .union l r => inFragment l && inFragment r
   | .graph _ p => inFragment p
   | .extend p _ _ => inFragment p
@@ -437,8 +550,18 @@ inductive Answer
   | err (e : Err)
   deriving Inhabited
 
-/-- a query over the dataset `D`.  Without a dataset clause the default graph is the active graph;
-a dataset clause, or a pattern outside the fragment, is to be refused. -/
+/-- §13.2: the RDF dataset of a query with `FROM g₁ … FROM gₙ` and no `FROM NAMED`: the default graph
+is the RDF merge of the graphs gᵢ (a set: a triple present in several of them occurs once), and
+there is no named graph -/
+def fromDataset (D : List Quad) (froms : List Str) : List Quad :=
+  (dedupBy tripleEq (graphOf D (fun g => froms.any (fun n => isName (.iri n) g)))).map
+    (fun t => ⟨t.1, t.2.1, t.2.2, none⟩)
+
+/-- a query over the dataset `D`.  Without a dataset clause the default graph is the active graph.
+A pattern outside the fragment, and `FROM NAMED` (a dataset clause with a `named` list, which is what
+the SPARQL parser produces for *any* dataset clause) are to be refused; a `QueryDataset` with
+`named: None` (only constructible programmatically) may be refused or answered — if answered, then
+over the dataset of §13.2. -/
 def evalQuery (D : List Quad) : Query → Answer
   | .select none p =>
     if inFragment p then
@@ -449,6 +572,18 @@ def evalQuery (D : List Quad) : Query → Answer
   | .ask none p =>
     if inFragment p then
       match eval D p (defaultGraph D) with
+      | .ok Ω => .bool (!Ω.isEmpty)
+      | .error e => .err e
+    else .err .unsupported
+  | .select (some ⟨froms, none⟩) p =>
+    if inFragment p then
+      match eval (fromDataset D froms) p (defaultGraph (fromDataset D froms)) with
+      | .ok Ω => .rows (inScope p) Ω
+      | .error e => .err e
+    else .err .unsupported
+  | .ask (some ⟨froms, none⟩) p =>
+    if inFragment p then
+      match eval (fromDataset D froms) p (defaultGraph (fromDataset D froms)) with
       | .ok Ω => .bool (!Ω.isEmpty)
       | .error e => .err e
     else .err .unsupported
